@@ -459,6 +459,7 @@ theorem fedCb.pn (F : TFacts) (addNewIds : J â†’ Prog J) (deliver : Iri â†’ J â†
     | pn_auto
 pn_lemma normalizeAttribution
 pn_lemma socCreate
+pn_lemma socUpdateOne
 pn_lemma socUpdate
 pn_lemma socDelete
 pn_lemma socLike
